@@ -7,6 +7,7 @@ package main
 // deterministic. Non-ASCII subject bytes end the path as unsupported.
 
 import (
+	"math"
 	"regexp/syntax"
 )
 
@@ -213,4 +214,48 @@ func (e *Exec) regexSymbolic(method, pattern string, args []Value) (Value, bool)
 		return Slice{out}, true
 	}
 	return nil, false
+}
+
+// ---------- math on concrete floats ----------
+
+func init() {
+	f1 := func(name string, fn func(float64) float64) {
+		reg("math."+name, func(fr *frame, args []Value) Value {
+			x, ok := args[0].(Float)
+			if !ok {
+				unsupported("math.%s on a symbolic value", name)
+			}
+			return Float{fn(x.v)}
+		})
+	}
+	f1("Abs", math.Abs)
+	f1("Floor", math.Floor)
+	f1("Ceil", math.Ceil)
+	f1("Trunc", math.Trunc)
+	f2 := func(name string, fn func(float64, float64) float64) {
+		reg("math."+name, func(fr *frame, args []Value) Value {
+			x, ok1 := args[0].(Float)
+			y, ok2 := args[1].(Float)
+			if !ok1 || !ok2 {
+				unsupported("math.%s on a symbolic value", name)
+			}
+			return Float{fn(x.v, y.v)}
+		})
+	}
+	f2("Remainder", math.Remainder)
+	f2("Mod", math.Mod)
+	reg("math.Float64bits", func(fr *frame, args []Value) Value {
+		x, ok := args[0].(Float)
+		if !ok {
+			unsupported("math.Float64bits on a symbolic value")
+		}
+		return fr.e.tt.BV(64, math.Float64bits(x.v))
+	})
+	reg("math.IsNaN", func(fr *frame, args []Value) Value {
+		x, ok := args[0].(Float)
+		if !ok {
+			unsupported("math.IsNaN on a symbolic value")
+		}
+		return fr.e.tt.Bool(math.IsNaN(x.v))
+	})
 }
